@@ -193,36 +193,44 @@ theorem isType_known (d : Draft) (t : Str) (h : (typeNames d).contains t = true)
     | (rw [hasType_integer_d34 _ (by simp)]; rfl)
     | (rw [hasType_integer_d67 _ (by simp)]; rfl)
 
+open Lean in
+/-- a key as an explicit list of characters (comparisons then never decode a string literal, which
+    is slow in the kernel) -/
+macro "k!" s:str : term => do
+  let cs := s.getString.toList
+  let elems := cs.map fun c => Syntax.mkCharLit c
+  `(([$(elems.toArray),*] : Str))
+
 /-! ### the clauses of `Spec.validN` and `Spec.shapedN`, one schema member at a time -/
 
 def clNum (d : Draft) (kvs : List (Str × Json)) (k : Str) (v : Json) (x : Num) : Bool :=
-  if k = ks "minimum" then
+  if k = k!"minimum" then
     (match isNum v with
      | some b => if !(d = .d6 || d = .d7) && flag "exclusiveMinimum" kvs then decide (val b < val x) else decide (val b ≤ val x)
      | none => true)
-  else if k = ks "maximum" then
+  else if k = k!"maximum" then
     (match isNum v with
      | some b => if !(d = .d6 || d = .d7) && flag "exclusiveMaximum" kvs then decide (val x < val b) else decide (val x ≤ val b)
      | none => true)
-  else if k = ks "exclusiveMinimum" ∧ (d = .d6 || d = .d7) then (match isNum v with | some b => decide (val b < val x) | none => true)
-  else if k = ks "exclusiveMaximum" ∧ (d = .d6 || d = .d7) then (match isNum v with | some b => decide (val x < val b) | none => true)
-  else if (k = ks "multipleOf" ∧ d ≠ .d3) ∨ (k = ks "divisibleBy" ∧ d = .d3) then
+  else if k = k!"exclusiveMinimum" ∧ (d = .d6 || d = .d7) then (match isNum v with | some b => decide (val b < val x) | none => true)
+  else if k = k!"exclusiveMaximum" ∧ (d = .d6 || d = .d7) then (match isNum v with | some b => decide (val x < val b) | none => true)
+  else if (k = k!"multipleOf" ∧ d ≠ .d3) ∨ (k = k!"divisibleBy" ∧ d = .d3) then
     (match isNum v with | some m => decide ((val x / val m).den = 1) | none => true)
   else true
 
 def clStr (env : Env) (k : Str) (v : Json) (str : Str) : Bool :=
-  if k = ks "minLength" then (match natBound v with | some m => decide (m ≤ (str.length : Rat)) | none => true)
-  else if k = ks "maxLength" then (match natBound v with | some m => decide ((str.length : Rat) ≤ m) | none => true)
-  else if k = ks "pattern" then (match v with | .str p => rx env p str | _ => true)
+  if k = k!"minLength" then (match natBound v with | some m => decide (m ≤ (str.length : Rat)) | none => true)
+  else if k = k!"maxLength" then (match natBound v with | some m => decide ((str.length : Rat) ≤ m) | none => true)
+  else if k = k!"pattern" then (match v with | .str p => rx env p str | _ => true)
   else true
 
 def clArr (d : Draft) (sub : Json → Json → Bool) (kvs : List (Str × Json)) (k : Str) (v : Json)
     (xs : List Json) : Bool :=
-  if k = ks "items" then
+  if k = k!"items" then
     (match v with
      | .arr ss => (xs.zip ss).all (fun p => sub p.2 p.1)
      | sch => xs.all (fun x => sub sch x))
-  else if k = ks "additionalItems" then
+  else if k = k!"additionalItems" then
     (match lookupJ "items" kvs with
      | some (.arr ss) =>
        (match v with
@@ -230,15 +238,15 @@ def clArr (d : Draft) (sub : Json → Json → Bool) (kvs : List (Str × Json)) 
         | .bool true => true
         | sch => (xs.drop ss.length).all (fun x => sub sch x))
      | _ => true)
-  else if k = ks "minItems" then (match natBound v with | some m => decide (m ≤ (xs.length : Rat)) | none => true)
-  else if k = ks "maxItems" then (match natBound v with | some m => decide ((xs.length : Rat) ≤ m) | none => true)
-  else if k = ks "uniqueItems" then (if isTrueJ v then allDistinct xs else true)
-  else if k = ks "contains" ∧ (d = .d6 || d = .d7) then xs.any (fun x => sub v x)
+  else if k = k!"minItems" then (match natBound v with | some m => decide (m ≤ (xs.length : Rat)) | none => true)
+  else if k = k!"maxItems" then (match natBound v with | some m => decide ((xs.length : Rat) ≤ m) | none => true)
+  else if k = k!"uniqueItems" then (if isTrueJ v then allDistinct xs else true)
+  else if k = k!"contains" ∧ (d = .d6 || d = .d7) then xs.any (fun x => sub v x)
   else true
 
 def clObj (env : Env) (d : Draft) (sub : Json → Json → Bool) (kvs : List (Str × Json)) (i : Json)
     (k : Str) (v : Json) (ms : List (Str × Json)) : Bool :=
-  if k = ks "properties" then
+  if k = k!"properties" then
     (match v with
      | .obj ps =>
        ms.all (fun m => match Json.lookup m.1 ps with | some s => sub s m.2 | none => true)
@@ -249,20 +257,20 @@ def clObj (env : Env) (d : Draft) (sub : Json → Json → Bool) (kvs : List (St
                            | _ => true)
              | _ => true))
      | _ => true)
-  else if k = ks "patternProperties" then
+  else if k = k!"patternProperties" then
     (match v with
      | .obj pps => ms.all (fun m => pps.all (fun p => !rx env p.1 m.1 || sub p.2 m.2))
      | _ => true)
-  else if k = ks "additionalProperties" then
+  else if k = k!"additionalProperties" then
     (match v with
      | .bool true => true
      | .bool false => ms.all (fun m => covered env kvs m.1)
      | sch => ms.all (fun m => covered env kvs m.1 || sub sch m.2))
-  else if k = ks "required" ∧ d ≠ .d3 then
+  else if k = k!"required" ∧ d ≠ .d3 then
     (match v with | .arr rs => rs.all (fun r => match r with | .str r => Json.hasKey r ms | _ => true) | _ => true)
-  else if k = ks "minProperties" ∧ d ≠ .d3 then (match natBound v with | some m => decide (m ≤ (ms.length : Rat)) | none => true)
-  else if k = ks "maxProperties" ∧ d ≠ .d3 then (match natBound v with | some m => decide ((ms.length : Rat) ≤ m) | none => true)
-  else if k = ks "dependencies" then
+  else if k = k!"minProperties" ∧ d ≠ .d3 then (match natBound v with | some m => decide (m ≤ (ms.length : Rat)) | none => true)
+  else if k = k!"maxProperties" ∧ d ≠ .d3 then (match natBound v with | some m => decide ((ms.length : Rat) ≤ m) | none => true)
+  else if k = k!"dependencies" then
     (match v with
      | .obj ds => ds.all (fun dp =>
          !Json.hasKey dp.1 ms ||
@@ -271,7 +279,7 @@ def clObj (env : Env) (d : Draft) (sub : Json → Json → Bool) (kvs : List (St
           | .str r => if d = .d3 then Json.hasKey r ms else true
           | sch => sub sch i))
      | _ => true)
-  else if k = ks "propertyNames" ∧ (d = .d6 || d = .d7) then ms.all (fun m => sub v (.str m.1))
+  else if k = k!"propertyNames" ∧ (d = .d6 || d = .d7) then ms.all (fun m => sub v (.str m.1))
   else true
 
 /-- the clauses that depend on the type of the instance -/
@@ -288,30 +296,30 @@ def clTyped (env : Env) (d : Draft) (sub : Json → Json → Bool) (kvs : List (
     validity under subschemas -/
 def clause (env : Env) (d : Draft) (sub : Json → Json → Bool) (kvs : List (Str × Json)) (i : Json) :
     Str × Json → Bool := fun (k, v) =>
-  if k = ks "type" ∧ d ≠ .d3 then
+  if k = k!"type" ∧ d ≠ .d3 then
     (match v with
      | .str t => hasType d t i
      | .arr ts => ts.any (fun t => match t with | .str t => hasType d t i | _ => false)
      | _ => true)
-  else if k = ks "type" then
+  else if k = k!"type" then
     (match v with
      | .str t => hasType d t i
      | .arr ts => ts.any (fun t => match t with | .str t => hasType d t i | .obj _ => sub t i | _ => false)
      | _ => true)
-  else if k = ks "disallow" ∧ d = .d3 then
+  else if k = k!"disallow" ∧ d = .d3 then
     (match v with
      | .str t => !hasType d t i
      | .arr ts => ts.all (fun t => match t with | .str t => !hasType d t i | .obj _ => !sub t i | _ => true)
      | _ => true)
-  else if k = ks "extends" ∧ d = .d3 then
+  else if k = k!"extends" ∧ d = .d3 then
     (match v with | .obj _ => sub v i | .arr ss => ss.all (fun s => sub s i) | _ => true)
-  else if k = ks "enum" then (match v with | .arr es => es.any (jsonEq i) | _ => true)
-  else if k = ks "const" ∧ (d = .d6 || d = .d7) then jsonEq i v
-  else if k = ks "allOf" ∧ d ≠ .d3 then (match v with | .arr ss => ss.all (fun s => sub s i) | _ => true)
-  else if k = ks "anyOf" ∧ d ≠ .d3 then (match v with | .arr ss => ss.any (fun s => sub s i) | _ => true)
-  else if k = ks "oneOf" ∧ d ≠ .d3 then (match v with | .arr ss => (ss.filter (fun s => sub s i)).length == 1 | _ => true)
-  else if k = ks "not" ∧ d ≠ .d3 then !sub v i
-  else if k = ks "if" ∧ d = .d7 then
+  else if k = k!"enum" then (match v with | .arr es => es.any (jsonEq i) | _ => true)
+  else if k = k!"const" ∧ (d = .d6 || d = .d7) then jsonEq i v
+  else if k = k!"allOf" ∧ d ≠ .d3 then (match v with | .arr ss => ss.all (fun s => sub s i) | _ => true)
+  else if k = k!"anyOf" ∧ d ≠ .d3 then (match v with | .arr ss => ss.any (fun s => sub s i) | _ => true)
+  else if k = k!"oneOf" ∧ d ≠ .d3 then (match v with | .arr ss => (ss.filter (fun s => sub s i)).length == 1 | _ => true)
+  else if k = k!"not" ∧ d ≠ .d3 then !sub v i
+  else if k = k!"if" ∧ d = .d7 then
     (if sub v i then (match lookupJ "then" kvs with | some t => sub t i | none => true)
      else (match lookupJ "else" kvs with | some e => sub e i | none => true))
   else clTyped env d sub kvs i k v
@@ -321,50 +329,50 @@ theorem validN_succ_obj (env : Env) (d : Draft) (n : Nat) (kvs : List (Str × Js
 
 /-- what `Spec.shapedN` requires of one member of a schema object (`sub`: shape of subschemas) -/
 def shapeClause (d : Draft) (sub : Json → Bool) : Str × Json → Bool := fun (k, v) =>
-  if k = ks "type" ∧ d ≠ .d3 then
+  if k = k!"type" ∧ d ≠ .d3 then
     (match v with
      | .str t => (typeNames d).contains t
      | .arr ts => ts.all (fun t => match t with | .str t => (typeNames d).contains t | _ => false)
      | _ => false)
-  else if (k = ks "type" ∨ k = ks "disallow") ∧ d = .d3 then
+  else if (k = k!"type" ∨ k = k!"disallow") ∧ d = .d3 then
     (match v with
      | .str _ => true
      | .arr ts => ts.all (fun t => match t with | .str _ => true | .obj _ => sub t | _ => false)
      | _ => false)
-  else if k = ks "extends" ∧ d = .d3 then
+  else if k = k!"extends" ∧ d = .d3 then
     (match v with | .obj _ => sub v | .arr ss => ss.all (fun s => s.isObj && sub s) | _ => false)
-  else if k = ks "enum" then v.isArr
-  else if (k = ks "allOf" ∨ k = ks "anyOf" ∨ k = ks "oneOf") ∧ d ≠ .d3 then
+  else if k = k!"enum" then v.isArr
+  else if (k = k!"allOf" ∨ k = k!"anyOf" ∨ k = k!"oneOf") ∧ d ≠ .d3 then
     (match v with | .arr ss => !ss.isEmpty && ss.all sub | _ => false)
-  else if k = ks "not" ∧ d ≠ .d3 then sub v
-  else if k = ks "if" ∧ d = .d7 then sub v
-  else if (k = ks "then" ∨ k = ks "else") ∧ d = .d7 then sub v
-  else if k = ks "minimum" ∨ k = ks "maximum" then v.isNumJ
-  else if (k = ks "exclusiveMinimum" ∨ k = ks "exclusiveMaximum") then (if (d = .d6 || d = .d7) then v.isNumJ else isBoolV v)
-  else if (k = ks "multipleOf" ∧ d ≠ .d3) ∨ (k = ks "divisibleBy" ∧ d = .d3) then
+  else if k = k!"not" ∧ d ≠ .d3 then sub v
+  else if k = k!"if" ∧ d = .d7 then sub v
+  else if (k = k!"then" ∨ k = k!"else") ∧ d = .d7 then sub v
+  else if k = k!"minimum" ∨ k = k!"maximum" then v.isNumJ
+  else if (k = k!"exclusiveMinimum" ∨ k = k!"exclusiveMaximum") then (if (d = .d6 || d = .d7) then v.isNumJ else isBoolV v)
+  else if (k = k!"multipleOf" ∧ d ≠ .d3) ∨ (k = k!"divisibleBy" ∧ d = .d3) then
     (match v with | .num m => decide (0 < val m) | _ => false)
-  else if k = ks "minLength" ∨ k = ks "maxLength" ∨ k = ks "minItems" ∨ k = ks "maxItems" then isNonNegInt d v
-  else if (k = ks "minProperties" ∨ k = ks "maxProperties") ∧ d ≠ .d3 then isNonNegInt d v
-  else if k = ks "pattern" ∨ k = ks "format" then isStrJ v
-  else if k = ks "items" then
+  else if k = k!"minLength" ∨ k = k!"maxLength" ∨ k = k!"minItems" ∨ k = k!"maxItems" then isNonNegInt d v
+  else if (k = k!"minProperties" ∨ k = k!"maxProperties") ∧ d ≠ .d3 then isNonNegInt d v
+  else if k = k!"pattern" ∨ k = k!"format" then isStrJ v
+  else if k = k!"items" then
     (match v with
      | .arr ss => ss.all sub
      | .obj _ => sub v
      | .bool _ => (d = .d6 || d = .d7)
      | _ => false)
-  else if k = ks "additionalItems" ∨ k = ks "additionalProperties" then
+  else if k = k!"additionalItems" ∨ k = k!"additionalProperties" then
     (match v with | .bool _ => true | .obj _ => sub v | _ => false)
-  else if k = ks "uniqueItems" then isBoolV v
-  else if k = ks "contains" ∧ (d = .d6 || d = .d7) then sub v
-  else if k = ks "propertyNames" ∧ (d = .d6 || d = .d7) then sub v
-  else if k = ks "properties" then
+  else if k = k!"uniqueItems" then isBoolV v
+  else if k = k!"contains" ∧ (d = .d6 || d = .d7) then sub v
+  else if k = k!"propertyNames" ∧ (d = .d6 || d = .d7) then sub v
+  else if k = k!"properties" then
     (match v with | .obj ps => ps.all (fun p => ((d = .d6 || d = .d7) || p.2.isObj) && sub p.2) | _ => false)
-  else if k = ks "patternProperties" then
+  else if k = k!"patternProperties" then
     (match v with | .obj ps => ps.all (fun p => ((d = .d6 || d = .d7) || p.2.isObj) && sub p.2) | _ => false)
-  else if k = ks "required" ∧ d ≠ .d3 then
+  else if k = k!"required" ∧ d ≠ .d3 then
     (match v with | .arr rs => rs.all isStrJ | _ => false)
-  else if k = ks "required" ∧ d = .d3 then isBoolV v
-  else if k = ks "dependencies" then
+  else if k = k!"required" ∧ d = .d3 then isBoolV v
+  else if k = k!"dependencies" then
     (match v with
      | .obj ds => ds.all (fun dp =>
          match dp.2 with
@@ -971,7 +979,7 @@ theorem ex_kwAdditionalItems (d : Draft) (kvs : List (Str × Json)) (v : Json) (
     Ex (kwAdditionalItems (d.cfg none) rec v (.arr xs) (.obj kvs))
       (match lookupJ "items" kvs with
        | some (.arr ss) =>
-         (match v with
+         (match (generalizing := false) v with
           | .bool false => decide (xs.length ≤ ss.length)
           | .bool true => true
           | sch => (xs.drop ss.length).all (fun x => sub sch x))
@@ -1428,7 +1436,7 @@ theorem ex_kwAdditionalProperties (env : Env) (hre : RegexTotal env) (hset : Set
     (hpats : ∀ x, lookupJ "patternProperties" kvs = some x → x.isObj = true)
     (hv : (∃ b, v = .bool b) ∨ (v.isObj = true ∧ ∀ m ∈ ms, Ok (rec m.2 v) (sub v m.2))) :
     Ex (kwAdditionalProperties env (d.cfg none) rec v (.obj ms) (.obj kvs))
-      (match v with
+      (match (generalizing := false) v with
        | .bool true => true
        | .bool false => ms.all (fun m => covered env kvs m.1)
        | sch => ms.all (fun m => covered env kvs m.1 || sub sch m.2)) := by
@@ -1653,5 +1661,874 @@ theorem ex_kwDisallowDraft3 (d : Draft) (v i : Json) (ts : List Json) (hv : ensu
   unfold kwDisallowDraft3
   rw [hv]
   exact ex_seqG _ _ _ (fun t ht => ex_innerValid _ (h t ht).2 (ex_ite_emit _ _))
+
+/-! ### the keyword tables with explicit keys -/
+
+def kwTable : Draft → List (Str × KwFn)
+  | .d3 => [(k!"$ref", .ref), (k!"additionalItems", .additionalItems),
+      (k!"additionalProperties", .additionalProperties), (k!"dependencies", .dependencies_draft3),
+      (k!"disallow", .disallow_draft3), (k!"divisibleBy", .multipleOf), (k!"enum", .enum),
+      (k!"extends", .extends_draft3), (k!"format", .format), (k!"items", .items_draft3_draft4),
+      (k!"maxItems", .maxItems), (k!"maxLength", .maxLength),
+      (k!"maximum", .maximum_draft3_draft4), (k!"minItems", .minItems),
+      (k!"minLength", .minLength), (k!"minimum", .minimum_draft3_draft4), (k!"pattern", .pattern),
+      (k!"patternProperties", .patternProperties), (k!"properties", .properties_draft3),
+      (k!"type", .type_draft3), (k!"uniqueItems", .uniqueItems)]
+  | .d4 => [(k!"$ref", .ref), (k!"additionalItems", .additionalItems),
+      (k!"additionalProperties", .additionalProperties), (k!"allOf", .allOf), (k!"anyOf", .anyOf),
+      (k!"dependencies", .dependencies), (k!"enum", .enum), (k!"format", .format),
+      (k!"items", .items_draft3_draft4), (k!"maxItems", .maxItems), (k!"maxLength", .maxLength),
+      (k!"maxProperties", .maxProperties), (k!"maximum", .maximum_draft3_draft4),
+      (k!"minItems", .minItems), (k!"minLength", .minLength), (k!"minProperties", .minProperties),
+      (k!"minimum", .minimum_draft3_draft4), (k!"multipleOf", .multipleOf), (k!"not", .not_),
+      (k!"oneOf", .oneOf), (k!"pattern", .pattern), (k!"patternProperties", .patternProperties),
+      (k!"properties", .properties), (k!"required", .required), (k!"type", .type),
+      (k!"uniqueItems", .uniqueItems)]
+  | .d6 => [(k!"$ref", .ref), (k!"additionalItems", .additionalItems),
+      (k!"additionalProperties", .additionalProperties), (k!"allOf", .allOf), (k!"anyOf", .anyOf),
+      (k!"const", .const), (k!"contains", .contains), (k!"dependencies", .dependencies),
+      (k!"enum", .enum), (k!"exclusiveMaximum", .exclusiveMaximum),
+      (k!"exclusiveMinimum", .exclusiveMinimum), (k!"format", .format), (k!"items", .items),
+      (k!"maxItems", .maxItems), (k!"maxLength", .maxLength), (k!"maxProperties", .maxProperties),
+      (k!"maximum", .maximum), (k!"minItems", .minItems), (k!"minLength", .minLength),
+      (k!"minProperties", .minProperties), (k!"minimum", .minimum), (k!"multipleOf", .multipleOf),
+      (k!"not", .not_), (k!"oneOf", .oneOf), (k!"pattern", .pattern),
+      (k!"patternProperties", .patternProperties), (k!"properties", .properties),
+      (k!"propertyNames", .propertyNames), (k!"required", .required), (k!"type", .type),
+      (k!"uniqueItems", .uniqueItems)]
+  | .d7 => [(k!"$ref", .ref), (k!"additionalItems", .additionalItems),
+      (k!"additionalProperties", .additionalProperties), (k!"allOf", .allOf), (k!"anyOf", .anyOf),
+      (k!"const", .const), (k!"contains", .contains), (k!"dependencies", .dependencies),
+      (k!"enum", .enum), (k!"exclusiveMaximum", .exclusiveMaximum),
+      (k!"exclusiveMinimum", .exclusiveMinimum), (k!"format", .format), (k!"if", .if_),
+      (k!"items", .items), (k!"maxItems", .maxItems), (k!"maxLength", .maxLength),
+      (k!"maxProperties", .maxProperties), (k!"maximum", .maximum), (k!"minItems", .minItems),
+      (k!"minLength", .minLength), (k!"minProperties", .minProperties), (k!"minimum", .minimum),
+      (k!"multipleOf", .multipleOf), (k!"oneOf", .oneOf), (k!"not", .not_),
+      (k!"pattern", .pattern), (k!"patternProperties", .patternProperties),
+      (k!"properties", .properties), (k!"propertyNames", .propertyNames),
+      (k!"required", .required), (k!"type", .type), (k!"uniqueItems", .uniqueItems)]
+
+theorem keywords_eq (d : Draft) : (d.cfg none).keywords = kwTable d := by
+  cases d <;> decide +kernel
+
+/-! ### the hereditary part of the domain: well-formedness, `numSafe`, `typesKnown` -/
+
+structure Rest (d : Draft) (s : Json) : Prop where
+  wf : WF s = true
+  ns : numSafe s = true
+  tk : typesKnown d s = true
+
+theorem numSafeList_mem {xs : List Json} (h : numSafe.numSafeList xs = true) :
+    ∀ x ∈ xs, numSafe x = true := by
+  induction xs with
+  | nil => intro x hx; cases hx
+  | cons y ys ih =>
+    simp only [numSafe.numSafeList, Bool.and_eq_true] at h
+    intro x hx
+    rcases List.mem_cons.mp hx with rfl | hx
+    · exact h.1
+    · exact ih h.2 x hx
+
+theorem typesKnownList_mem {d : Draft} {xs : List Json} (h : typesKnown.typesKnownList d xs = true) :
+    ∀ x ∈ xs, typesKnown d x = true := by
+  induction xs with
+  | nil => intro x hx; cases hx
+  | cons y ys ih =>
+    simp only [typesKnown.typesKnownList, Bool.and_eq_true] at h
+    intro x hx
+    rcases List.mem_cons.mp hx with rfl | hx
+    · exact h.1
+    · exact ih h.2 x hx
+
+/-- what `numSafe` says about one member -/
+def nsMember (k : Str) (v : Json) : Bool :=
+  if k = ks "multipleOf" ∨ k = ks "divisibleBy" then
+    (match v with | .num (.int m) => decide (0 < m ∧ m ≤ 2 ^ 53) | _ => false)
+  else true
+
+/-- what `typesKnown` says about one member -/
+def tkMember (d : Draft) (k : Str) (v : Json) : Bool :=
+  if k = ks "type" ∨ k = ks "disallow" then
+    (match v with
+     | .str t => (typeNames d).contains t
+     | .arr ts => ts.all (fun t => match t with | .str t => (typeNames d).contains t | _ => true)
+     | _ => true)
+  else true
+
+theorem numSafeKvs_mem {kvs : List (Str × Json)} (h : numSafe.numSafeKvs kvs = true) :
+    ∀ k v, (k, v) ∈ kvs → nsMember k v = true ∧ numSafe v = true := by
+  induction kvs with
+  | nil => intro k v hx; cases hx
+  | cons y ys ih =>
+    obtain ⟨k', v'⟩ := y
+    simp only [numSafe.numSafeKvs, Bool.and_eq_true] at h
+    intro k v hx
+    rcases List.mem_cons.mp hx with e | hx
+    · cases e; exact ⟨h.1.1, h.1.2⟩
+    · exact ih h.2 k v hx
+
+theorem typesKnownKvs_mem {d : Draft} {kvs : List (Str × Json)}
+    (h : typesKnown.typesKnownKvs d kvs = true) :
+    ∀ k v, (k, v) ∈ kvs → tkMember d k v = true ∧ typesKnown d v = true := by
+  induction kvs with
+  | nil => intro k v hx; cases hx
+  | cons y ys ih =>
+    obtain ⟨k', v'⟩ := y
+    simp only [typesKnown.typesKnownKvs, Bool.and_eq_true] at h
+    intro k v hx
+    rcases List.mem_cons.mp hx with e | hx
+    · cases e; exact ⟨h.1.1, h.1.2⟩
+    · exact ih h.2 k v hx
+
+theorem Rest.arr_mem {d : Draft} {xs : List Json} (h : Rest d (.arr xs)) {x : Json} (hx : x ∈ xs) :
+    Rest d x :=
+  ⟨WF_arr h.wf x hx, numSafeList_mem (by simpa [numSafe] using h.ns) x hx,
+    typesKnownList_mem (by simpa [typesKnown] using h.tk) x hx⟩
+
+theorem Rest.obj_mem {d : Draft} {kvs : List (Str × Json)} (h : Rest d (.obj kvs)) {k : Str} {v : Json}
+    (hx : (k, v) ∈ kvs) : Rest d v :=
+  ⟨(WF_obj h.wf).2 (k, v) hx, (numSafeKvs_mem (by simpa [numSafe] using h.ns) k v hx).2,
+    (typesKnownKvs_mem (by simpa [typesKnown] using h.tk) k v hx).2⟩
+
+theorem Rest.ns_member {d : Draft} {kvs : List (Str × Json)} (h : Rest d (.obj kvs)) {k : Str} {v : Json}
+    (hx : (k, v) ∈ kvs) : nsMember k v = true :=
+  (numSafeKvs_mem (by simpa [numSafe] using h.ns) k v hx).1
+
+theorem Rest.tk_member {d : Draft} {kvs : List (Str × Json)} (h : Rest d (.obj kvs)) {k : Str} {v : Json}
+    (hx : (k, v) ∈ kvs) : tkMember d k v = true :=
+  (typesKnownKvs_mem (by simpa [typesKnown] using h.tk) k v hx).1
+
+theorem Rest.leaf (d : Draft) (s : Json) (h : s.isArr = false) (h' : s.isObj = false) : Rest d s := by
+  cases s with
+  | arr _ => simp [Json.isArr] at h
+  | obj _ => simp [Json.isObj] at h'
+  | _ => exact ⟨rfl, rfl, rfl⟩
+
+/-! ### string literals of the specification against explicit keys (decoded once) -/
+
+theorem ks_ref : ks "$ref" = k!"$ref" := by decide +kernel
+theorem ks_then : ks "then" = k!"then" := by decide +kernel
+theorem ks_else : ks "else" = k!"else" := by decide +kernel
+theorem ks_items : ks "items" = k!"items" := by decide +kernel
+theorem ks_properties : ks "properties" = k!"properties" := by decide +kernel
+theorem ks_patternProperties : ks "patternProperties" = k!"patternProperties" := by decide +kernel
+theorem ks_required : ks "required" = k!"required" := by decide +kernel
+theorem ks_exclusiveMinimum : ks "exclusiveMinimum" = k!"exclusiveMinimum" := by decide +kernel
+theorem ks_exclusiveMaximum : ks "exclusiveMaximum" = k!"exclusiveMaximum" := by decide +kernel
+theorem ks_multipleOf : ks "multipleOf" = k!"multipleOf" := by decide +kernel
+theorem ks_divisibleBy : ks "divisibleBy" = k!"divisibleBy" := by decide +kernel
+theorem ks_type : ks "type" = k!"type" := by decide +kernel
+theorem ks_disallow : ks "disallow" = k!"disallow" := by decide +kernel
+theorem ks_id : ks "id" = k!"id" := by decide +kernel
+theorem ks_dollar_id : ks "$id" = k!"$id" := by decide +kernel
+
+/-! ### running one keyword -/
+
+variable {rec : Rec} {sub : Json → Json → Bool}
+
+/-- `g` is what `applyKw` dispatches to (given last, so that it is known from `hex` when the
+    equation is checked by `rfl`) -/
+theorem ex_runKeyword {env : Env} {impl : FmtImpl} {d : Draft} {k : Str} {v i s : Json} {f : KwFn}
+    {w : Bool} {g : Gen} (h : lookupS k (kwTable d) = some f) (hex : Ex g w)
+    (hg : applyKw env impl (d.cfg none) rec f v i s = g := by rfl) :
+    Ex (runKeyword env impl (d.cfg none) rec i s (k, v)) w := by
+  unfold runKeyword
+  dsimp only
+  rw [keywords_eq, h]
+  dsimp only
+  rw [hg]
+  exact ex_mapErrs _ hex
+
+theorem ex_runKeyword_none {env : Env} {impl : FmtImpl} {d : Draft} {k : Str} {v i s : Json}
+    (h : lookupS k (kwTable d) = none) :
+    Ex (runKeyword env impl (d.cfg none) rec i s (k, v)) true := by
+  unfold runKeyword
+  dsimp only
+  rw [keywords_eq, h]
+  exact ex_nothing
+
+/-- what the induction provides about one schema object `kvs`: the recursive call is right on
+    every well-shaped proper subschema, and on the schemas `{"type": [t]}` that `disallow`
+    synthesises -/
+structure Ctx (d : Draft) (rec : Rec) (sub : Json → Json → Bool) (shp : Json → Bool)
+    (kvs : List (Str × Json)) : Prop where
+  hrec : ∀ s', shp s' = true → Rest d s' → s'.size < (Json.obj kvs).size →
+    ∀ i', WF i' = true → Ok (rec i' s') (sub s' i')
+  hsyn : ∀ dv, (k!"disallow", dv) ∈ kvs → ∀ ts, ensureList dv = some ts → ∀ t ∈ ts,
+    ∀ i', WF i' = true → Ok (rec i' (.obj [(skey "type", .arr [t])])) (tyval d sub i' t)
+  /-- drafts 6, 7: the boolean schemas -/
+  hbool : (d = .d6 ∨ d = .d7) → ∀ b i', Ok (rec i' (.bool b)) (sub (.bool b) i')
+  shape : ∀ kv ∈ kvs, shapeClause d shp kv = true
+  /-- draft 3: `required` inside a well-shaped property schema is a boolean -/
+  req3 : d = .d3 → ∀ pk, shp (.obj pk) = true → ∀ r, lookupJ "required" pk = some r → isBoolV r = true
+  rest : Rest d (.obj kvs)
+  noref : lookupJ "$ref" kvs = none
+
+namespace Ctx
+variable {d : Draft} {shp : Json → Bool} {kvs : List (Str × Json)}
+
+theorem sub_v (C : Ctx d rec sub shp kvs) {k : Str} {v : Json} (hmem : (k, v) ∈ kvs)
+    (hs : shp v = true) (i' : Json) (hi' : WF i' = true) : Ok (rec i' v) (sub v i') :=
+  C.hrec v hs (C.rest.obj_mem hmem) (by have := size_lt_of_mem_obj hmem; omega) i' hi'
+
+theorem sub_elem (C : Ctx d rec sub shp kvs) {k : Str} {ss : List Json} (hmem : (k, .arr ss) ∈ kvs)
+    {s : Json} (hs : s ∈ ss) (hshp : shp s = true) (i' : Json) (hi' : WF i' = true) :
+    Ok (rec i' s) (sub s i') :=
+  C.hrec s hshp ((C.rest.obj_mem hmem).arr_mem hs)
+    (by have := size_lt_of_mem_obj hmem; have := size_lt_of_mem_arr hs; omega) i' hi'
+
+theorem sub_val (C : Ctx d rec sub shp kvs) {k : Str} {ps : List (Str × Json)}
+    (hmem : (k, .obj ps) ∈ kvs) {p : Str × Json} (hp : p ∈ ps) (hshp : shp p.2 = true)
+    (i' : Json) (hi' : WF i' = true) : Ok (rec i' p.2) (sub p.2 i') :=
+  C.hrec p.2 hshp ((C.rest.obj_mem hmem).obj_mem (k := p.1) hp)
+    (by have := size_lt_of_mem_obj hmem; have := size_lt_of_mem_obj (k := p.1) (v := p.2) hp; omega)
+    i' hi'
+
+theorem wf_v (C : Ctx d rec sub shp kvs) {k : Str} {v : Json} (hmem : (k, v) ∈ kvs) : WF v = true :=
+  (C.rest.obj_mem hmem).wf
+
+/-- the shape of the value found under a key of the schema object -/
+theorem shape_lookup (C : Ctx d rec sub shp kvs) {key : String} {v : Json}
+    (h : lookupJ key kvs = some v) : shapeClause d shp (ks key, v) = true :=
+  C.shape _ (lookup_mem h)
+
+end Ctx
+
+theorem tkMember_type (d : Draft) (v : Json) :
+    tkMember d (k!"type") v =
+      (match v with
+       | .str t => (typeNames d).contains t
+       | .arr ts => ts.all (fun t => match t with | .str t => (typeNames d).contains t | _ => true)
+       | _ => true) := by
+  unfold tkMember; rw [if_pos (Or.inl ks_type.symm)]
+
+theorem tkMember_disallow (d : Draft) (v : Json) :
+    tkMember d (k!"disallow") v =
+      (match v with
+       | .str t => (typeNames d).contains t
+       | .arr ts => ts.all (fun t => match t with | .str t => (typeNames d).contains t | _ => true)
+       | _ => true) := by
+  unfold tkMember; rw [if_pos (Or.inr ks_disallow.symm)]
+
+theorem nsMember_multipleOf (v : Json) :
+    nsMember (k!"multipleOf") v
+      = (match v with | .num (.int m) => decide (0 < m ∧ m ≤ 2 ^ 53) | _ => false) := by
+  unfold nsMember; rw [if_pos (Or.inl ks_multipleOf.symm)]
+
+theorem nsMember_divisibleBy (v : Json) :
+    nsMember (k!"divisibleBy") v
+      = (match v with | .num (.int m) => decide (0 < m ∧ m ≤ 2 ^ 53) | _ => false) := by
+  unfold nsMember; rw [if_pos (Or.inr ks_divisibleBy.symm)]
+
+section Keys
+variable {env : Env} {impl : FmtImpl} {d : Draft} {rec : Rec} {sub : Json → Json → Bool}
+  {shp : Json → Bool} {kvs : List (Str × Json)}
+
+/-- the entries of a draft 3 `type` array: known names or well-shaped schemas -/
+theorem type3_elems (C : Ctx d rec sub shp kvs) {k : Str} {ts : List Json} (hmem : (k, .arr ts) ∈ kvs)
+    (hsh : ts.all (fun t => match t with | .str _ => true | .obj _ => shp t | _ => false) = true)
+    (htk : ts.all (fun t => match t with | .str t => (typeNames d).contains t | _ => true) = true)
+    (i : Json) (hi : WF i = true) :
+    ∀ t ∈ ts, (∃ n, t = .str n ∧ (typeNames d).contains n = true)
+      ∨ (t.isObj = true ∧ Ok (rec i t) (sub t i)) := by
+  intro t ht
+  have h1 := List.all_eq_true.mp hsh t ht
+  have h2 := List.all_eq_true.mp htk t ht
+  cases t with
+  | str n => exact Or.inl ⟨n, rfl, h2⟩
+  | obj o => exact Or.inr ⟨rfl, C.sub_elem hmem ht h1 i hi⟩
+  | _ => cases h1
+
+theorem key_type (C : Ctx d rec sub shp kvs) (v i : Json) (hmem : (k!"type", v) ∈ kvs)
+    (hi : WF i = true) :
+    Ex (runKeyword env impl (d.cfg none) rec i (.obj kvs) (k!"type", v))
+      (clause env d sub kvs i (k!"type", v)) := by
+  have hsh := C.shape _ hmem
+  have htk := C.rest.tk_member hmem
+  rw [tkMember_type] at htk
+  cases d
+  case d3 =>
+    cases v with
+    | str t =>
+      refine (ex_runKeyword (f := .type_draft3) rfl
+        (ex_kwTypeDraft3 (sub := sub) .d3 (.str t) i [.str t] rfl (fun t' ht' => ?_))).congr (Bool.or_false _)
+      rw [List.mem_singleton] at ht'
+      exact Or.inl ⟨t, ht', htk⟩
+    | arr ts =>
+      exact ex_runKeyword (f := .type_draft3) rfl
+        (ex_kwTypeDraft3 (sub := sub) .d3 (.arr ts) i ts rfl (type3_elems C hmem hsh htk i hi))
+    | _ => cases (hsh : false = true)
+  all_goals
+    cases v with
+    | str t => exact ex_runKeyword (f := .type) rfl (ex_kwType_str _ i t htk)
+    | arr ts =>
+      refine ex_runKeyword (f := .type) rfl (ex_kwType_arr _ i ts (fun t ht => ?_))
+      have h1 := List.all_eq_true.mp hsh t ht
+      cases t with
+      | str n => exact ⟨n, rfl, h1⟩
+      | _ => cases h1
+    | _ => cases (hsh : false = true)
+
+theorem key_disallow (C : Ctx d rec sub shp kvs) (v i : Json) (hmem : (k!"disallow", v) ∈ kvs)
+    (hi : WF i = true) :
+    Ex (runKeyword env impl (d.cfg none) rec i (.obj kvs) (k!"disallow", v))
+      (clause env d sub kvs i (k!"disallow", v)) := by
+  have hsh := C.shape _ hmem
+  cases d
+  case d3 =>
+    cases v with
+    | str t =>
+      refine (ex_runKeyword (f := .disallow_draft3) rfl
+        (ex_kwDisallowDraft3 (sub := sub) .d3 (.str t) i [.str t] rfl
+          (fun t' ht' => C.hsyn _ hmem _ rfl t' ht' i hi))).congr (Bool.and_true _)
+    | arr ts =>
+      refine (ex_runKeyword (f := .disallow_draft3) rfl
+        (ex_kwDisallowDraft3 (sub := sub) .d3 (.arr ts) i ts rfl
+          (fun t' ht' => C.hsyn _ hmem _ rfl t' ht' i hi))).congr ?_
+      exact congrArg ts.all (funext fun t => by cases t <;> rfl)
+    | _ => cases (hsh : false = true)
+  all_goals exact (ex_runKeyword_none rfl).congr (by cases i <;> rfl)
+
+theorem key_extends (C : Ctx d rec sub shp kvs) (v i : Json) (hmem : (k!"extends", v) ∈ kvs)
+    (hi : WF i = true) :
+    Ex (runKeyword env impl (d.cfg none) rec i (.obj kvs) (k!"extends", v))
+      (clause env d sub kvs i (k!"extends", v)) := by
+  have hsh := C.shape _ hmem
+  cases d
+  case d3 =>
+    cases v with
+    | obj o =>
+      exact ex_runKeyword (f := .extends_draft3) rfl
+        (ex_kwExtends_obj .d3 _ i rfl (C.sub_v hmem hsh i hi))
+    | arr ss =>
+      refine ex_runKeyword (f := .extends_draft3) rfl (ex_kwExtends_arr .d3 ss i (fun s hs => ?_))
+      have h1 := List.all_eq_true.mp hsh s hs
+      rw [Bool.and_eq_true] at h1
+      exact C.sub_elem hmem hs h1.2 i hi
+    | _ => cases (hsh : false = true)
+  all_goals exact (ex_runKeyword_none rfl).congr (by cases i <;> rfl)
+
+theorem key_enum (C : Ctx d rec sub shp kvs) (v i : Json) (hmem : (k!"enum", v) ∈ kvs)
+    (hi : WF i = true) :
+    Ex (runKeyword env impl (d.cfg none) rec i (.obj kvs) (k!"enum", v))
+      (clause env d sub kvs i (k!"enum", v)) := by
+  have hsh := C.shape _ hmem
+  have hwf := C.wf_v hmem
+  cases d <;>
+    cases v with
+    | arr es => exact ex_runKeyword (f := .enum) rfl (ex_kwEnum es i hwf hi)
+    | _ => cases (hsh : false = true)
+
+theorem key_const (C : Ctx d rec sub shp kvs) (v i : Json) (hmem : (k!"const", v) ∈ kvs)
+    (hi : WF i = true) :
+    Ex (runKeyword env impl (d.cfg none) rec i (.obj kvs) (k!"const", v))
+      (clause env d sub kvs i (k!"const", v)) := by
+  have hwf := C.wf_v hmem
+  cases d
+  case d6 => exact ex_runKeyword (f := .const) rfl (ex_kwConst v i hwf hi)
+  case d7 => exact ex_runKeyword (f := .const) rfl (ex_kwConst v i hwf hi)
+  all_goals exact (ex_runKeyword_none rfl).congr (by cases i <;> rfl)
+
+/-- the members of an `allOf`/`anyOf`/`oneOf` array -/
+theorem schemaArray_elems (C : Ctx d rec sub shp kvs) {k : Str} {ss : List Json}
+    (hmem : (k, .arr ss) ∈ kvs) (hsh : (!ss.isEmpty && ss.all shp) = true) (i : Json)
+    (hi : WF i = true) : ∀ s ∈ ss, Ok (rec i s) (sub s i) := by
+  intro s hs
+  rw [Bool.and_eq_true] at hsh
+  exact C.sub_elem hmem hs (List.all_eq_true.mp hsh.2 s hs) i hi
+
+theorem key_allOf (C : Ctx d rec sub shp kvs) (v i : Json) (hmem : (k!"allOf", v) ∈ kvs)
+    (hi : WF i = true) :
+    Ex (runKeyword env impl (d.cfg none) rec i (.obj kvs) (k!"allOf", v))
+      (clause env d sub kvs i (k!"allOf", v)) := by
+  have hsh := C.shape _ hmem
+  cases d
+  case d3 => exact (ex_runKeyword_none rfl).congr (by cases i <;> rfl)
+  all_goals
+    cases v with
+    | arr ss =>
+      exact ex_runKeyword (f := .allOf) rfl (ex_kwAllOf ss i (schemaArray_elems C hmem hsh i hi))
+    | _ => cases (hsh : false = true)
+
+theorem key_anyOf (C : Ctx d rec sub shp kvs) (v i : Json) (hmem : (k!"anyOf", v) ∈ kvs)
+    (hi : WF i = true) :
+    Ex (runKeyword env impl (d.cfg none) rec i (.obj kvs) (k!"anyOf", v))
+      (clause env d sub kvs i (k!"anyOf", v)) := by
+  have hsh := C.shape _ hmem
+  cases d
+  case d3 => exact (ex_runKeyword_none rfl).congr (by cases i <;> rfl)
+  all_goals
+    cases v with
+    | arr ss =>
+      exact ex_runKeyword (f := .anyOf) rfl (ex_kwAnyOf ss i (schemaArray_elems C hmem hsh i hi))
+    | _ => cases (hsh : false = true)
+
+theorem key_oneOf (C : Ctx d rec sub shp kvs) (v i : Json) (hmem : (k!"oneOf", v) ∈ kvs)
+    (hi : WF i = true) :
+    Ex (runKeyword env impl (d.cfg none) rec i (.obj kvs) (k!"oneOf", v))
+      (clause env d sub kvs i (k!"oneOf", v)) := by
+  have hsh := C.shape _ hmem
+  cases d
+  case d3 => exact (ex_runKeyword_none rfl).congr (by cases i <;> rfl)
+  all_goals
+    cases v with
+    | arr ss =>
+      exact ex_runKeyword (f := .oneOf) rfl (ex_kwOneOf ss i (schemaArray_elems C hmem hsh i hi))
+    | _ => cases (hsh : false = true)
+
+theorem key_not (C : Ctx d rec sub shp kvs) (v i : Json) (hmem : (k!"not", v) ∈ kvs)
+    (hi : WF i = true) :
+    Ex (runKeyword env impl (d.cfg none) rec i (.obj kvs) (k!"not", v))
+      (clause env d sub kvs i (k!"not", v)) := by
+  have hsh := C.shape _ hmem
+  cases d
+  case d3 => exact (ex_runKeyword_none rfl).congr (by cases i <;> rfl)
+  all_goals exact ex_runKeyword (f := .not_) rfl (ex_kwNot v i (C.sub_v hmem hsh i hi))
+
+theorem key_if (C : Ctx d rec sub shp kvs) (v i : Json) (hmem : (k!"if", v) ∈ kvs)
+    (hi : WF i = true) :
+    Ex (runKeyword env impl (d.cfg none) rec i (.obj kvs) (k!"if", v))
+      (clause env d sub kvs i (k!"if", v)) := by
+  have hsh := C.shape _ hmem
+  cases d
+  case d7 =>
+    refine ex_runKeyword (f := .if_) rfl (ex_kwIf kvs v i (C.sub_v hmem hsh i hi) ?_ ?_)
+    · intro t ht
+      have := C.shape_lookup ht
+      rw [ks_then] at this
+      exact C.sub_v (lookup_mem ht) this i hi
+    · intro t ht
+      have := C.shape_lookup ht
+      rw [ks_else] at this
+      exact C.sub_v (lookup_mem ht) this i hi
+  all_goals exact (ex_runKeyword_none rfl).congr (by cases i <;> rfl)
+
+theorem key_then (v i : Json) :
+    Ex (runKeyword env impl (d.cfg none) rec i (.obj kvs) (k!"then", v))
+      (clause env d sub kvs i (k!"then", v)) := by
+  cases d <;> exact (ex_runKeyword_none rfl).congr (by cases i <;> rfl)
+
+theorem key_else (v i : Json) :
+    Ex (runKeyword env impl (d.cfg none) rec i (.obj kvs) (k!"else", v))
+      (clause env d sub kvs i (k!"else", v)) := by
+  cases d <;> exact (ex_runKeyword_none rfl).congr (by cases i <;> rfl)
+
+theorem key_format (v i : Json) :
+    Ex (runKeyword env impl (d.cfg none) rec i (.obj kvs) (k!"format", v))
+      (clause env d sub kvs i (k!"format", v)) := by
+  cases d <;>
+    exact (ex_runKeyword (f := .format) rfl ex_nothing).congr
+      (by cases i <;> rfl)
+
+end Keys
+
+/-- variant of `ex_runKeyword` whose hypothesis is stated on `applyKw` -/
+theorem ex_runKeyword' {rec : Rec} {env : Env} {impl : FmtImpl} {d : Draft} {k : Str} {v i s : Json}
+    {f : KwFn} {w : Bool} (h : lookupS k (kwTable d) = some f)
+    (hex : Ex (applyKw env impl (d.cfg none) rec f v i s) w) :
+    Ex (runKeyword env impl (d.cfg none) rec i s (k, v)) w :=
+  ex_runKeyword h hex rfl
+
+theorem ex_of_eq_nothing {g : Gen} (h : g = nothing) : Ex g true := h ▸ ex_nothing
+
+theorem ex_kwBound_nonnum (d : Draft) (t : String) (f : Num → Num → Bool) (bound i : Json)
+    (h : i.isNumJ = false) : Ex (kwBound (d.cfg none) t f bound i) true :=
+  ex_of_eq_nothing (kwBound_nonnum' d t f bound i h)
+
+theorem truthy_flag (key : String) (kvs : List (Str × Json))
+    (h : ∀ v', lookupJ key kvs = some v' → isBoolV v' = true) :
+    truthy (((Json.obj kvs).get? (skey key)).getD (.bool false)) = flag key kvs := by
+  have e : (Json.obj kvs).get? (skey key) = lookupJ key kvs := rfl
+  rw [e]
+  unfold flag
+  cases hl : lookupJ key kvs with
+  | none => rfl
+  | some v' =>
+    have := h v' hl
+    cases v' <;> simp [isBoolV] at this
+    rename_i b
+    cases b <;> rfl
+
+theorem kwMinimum34_nonnum (d : Draft) (v i s : Json) (h : i.isNumJ = false) :
+    kwMinimumDraft3Draft4 (d.cfg none) v i s = nothing := by
+  unfold kwMinimumDraft3Draft4
+  split <;> exact kwBound_nonnum' d _ _ _ _ h
+
+theorem kwMaximum34_nonnum (d : Draft) (v i s : Json) (h : i.isNumJ = false) :
+    kwMaximumDraft3Draft4 (d.cfg none) v i s = nothing := by
+  unfold kwMaximumDraft3Draft4
+  split <;> exact kwBound_nonnum' d _ _ _ _ h
+
+theorem ex_kwMinimum34 (d : Draft) (kvs : List (Str × Json)) (b x : Num)
+    (h : ∀ v', lookupJ "exclusiveMinimum" kvs = some v' → isBoolV v' = true) :
+    Ex (kwMinimumDraft3Draft4 (d.cfg none) (.num b) (.num x) (.obj kvs))
+      (if flag "exclusiveMinimum" kvs then decide (val b < val x) else decide (val b ≤ val x)) := by
+  unfold kwMinimumDraft3Draft4
+  rw [truthy_flag _ _ h]
+  cases flag "exclusiveMinimum" kvs <;> simp only [Bool.false_eq_true, if_false, if_true]
+  · refine Ex.congr (ex_kwBound d _ _ b x) ?_
+    exact not_lt_eq x b
+  · refine Ex.congr (ex_kwBound d _ _ b x) ?_
+    exact not_le_eq x b
+
+theorem ex_kwMaximum34 (d : Draft) (kvs : List (Str × Json)) (b x : Num)
+    (h : ∀ v', lookupJ "exclusiveMaximum" kvs = some v' → isBoolV v' = true) :
+    Ex (kwMaximumDraft3Draft4 (d.cfg none) (.num b) (.num x) (.obj kvs))
+      (if flag "exclusiveMaximum" kvs then decide (val x < val b) else decide (val x ≤ val b)) := by
+  unfold kwMaximumDraft3Draft4
+  rw [truthy_flag _ _ h]
+  cases flag "exclusiveMaximum" kvs <;> simp only [Bool.false_eq_true, if_false, if_true]
+  · refine Ex.congr (ex_kwBound d _ _ b x) ?_
+    exact not_lt_eq b x
+  · refine Ex.congr (ex_kwBound d _ _ b x) ?_
+    exact not_le_eq b x
+
+
+theorem ex_kwMinimum (d : Draft) (b x : Num) :
+    Ex (kwMinimum (d.cfg none) (.num b) (.num x)) (decide (val b ≤ val x)) :=
+  Ex.congr (ex_kwBound d _ _ b x) (not_lt_eq x b)
+theorem ex_kwMaximum (d : Draft) (b x : Num) :
+    Ex (kwMaximum (d.cfg none) (.num b) (.num x)) (decide (val x ≤ val b)) :=
+  Ex.congr (ex_kwBound d _ _ b x) (not_lt_eq b x)
+theorem ex_kwExclusiveMinimum (d : Draft) (b x : Num) :
+    Ex (kwExclusiveMinimum (d.cfg none) (.num b) (.num x)) (decide (val b < val x)) :=
+  Ex.congr (ex_kwBound d _ _ b x) (not_le_eq x b)
+theorem ex_kwExclusiveMaximum (d : Draft) (b x : Num) :
+    Ex (kwExclusiveMaximum (d.cfg none) (.num b) (.num x)) (decide (val x < val b)) :=
+  Ex.congr (ex_kwBound d _ _ b x) (not_le_eq b x)
+
+section ApplyNothing
+variable {env : Env} {impl : FmtImpl} {d : Draft} {rec : Rec} {v i s : Json}
+
+theorem applyKw_minimum34_non (h : i.isNumJ = false) :
+    applyKw env impl (d.cfg none) rec .minimum_draft3_draft4 v i s = nothing :=
+  kwMinimum34_nonnum d v i s h
+theorem applyKw_maximum34_non (h : i.isNumJ = false) :
+    applyKw env impl (d.cfg none) rec .maximum_draft3_draft4 v i s = nothing :=
+  kwMaximum34_nonnum d v i s h
+theorem applyKw_minimum_non (h : i.isNumJ = false) :
+    applyKw env impl (d.cfg none) rec .minimum v i s = nothing := kwBound_nonnum' d _ _ v i h
+theorem applyKw_maximum_non (h : i.isNumJ = false) :
+    applyKw env impl (d.cfg none) rec .maximum v i s = nothing := kwBound_nonnum' d _ _ v i h
+theorem applyKw_exclusiveMinimum_non (h : i.isNumJ = false) :
+    applyKw env impl (d.cfg none) rec .exclusiveMinimum v i s = nothing := kwBound_nonnum' d _ _ v i h
+theorem applyKw_exclusiveMaximum_non (h : i.isNumJ = false) :
+    applyKw env impl (d.cfg none) rec .exclusiveMaximum v i s = nothing := kwBound_nonnum' d _ _ v i h
+theorem applyKw_multipleOf_non (h : i.isNumJ = false) :
+    applyKw env impl (d.cfg none) rec .multipleOf v i s = nothing := kwMultipleOf_nonnum d v i h
+theorem applyKw_minLength_non (h : i.isStr = false) :
+    applyKw env impl (d.cfg none) rec .minLength v i s = nothing :=
+  kwLenBound_other d _ _ _ _ v i _ (isTypeS_string d i) h
+theorem applyKw_maxLength_non (h : i.isStr = false) :
+    applyKw env impl (d.cfg none) rec .maxLength v i s = nothing :=
+  kwLenBound_other d _ _ _ _ v i _ (isTypeS_string d i) h
+theorem applyKw_minItems_non (h : i.isArr = false) :
+    applyKw env impl (d.cfg none) rec .minItems v i s = nothing :=
+  kwLenBound_other d _ _ _ _ v i _ (isTypeS_array d i) h
+theorem applyKw_maxItems_non (h : i.isArr = false) :
+    applyKw env impl (d.cfg none) rec .maxItems v i s = nothing :=
+  kwLenBound_other d _ _ _ _ v i _ (isTypeS_array d i) h
+theorem applyKw_minProperties_non (h : i.isObj = false) :
+    applyKw env impl (d.cfg none) rec .minProperties v i s = nothing :=
+  kwLenBound_other d _ _ _ _ v i _ (isTypeS_object d i) h
+theorem applyKw_maxProperties_non (h : i.isObj = false) :
+    applyKw env impl (d.cfg none) rec .maxProperties v i s = nothing :=
+  kwLenBound_other d _ _ _ _ v i _ (isTypeS_object d i) h
+theorem applyKw_pattern_non (h : i.isStr = false) :
+    applyKw env impl (d.cfg none) rec .pattern v i s = nothing := kwPattern_nonstr env d v i h
+theorem applyKw_uniqueItems_non (h : i.isArr = false) :
+    applyKw env impl (d.cfg none) rec .uniqueItems v i s = nothing := kwUniqueItems_nonarr d v i h
+theorem applyKw_items_non (h : i.isArr = false) :
+    applyKw env impl (d.cfg none) rec .items v i s = nothing := kwItems_nonarr d v i h
+theorem applyKw_items34_non (h : i.isArr = false) :
+    applyKw env impl (d.cfg none) rec .items_draft3_draft4 v i s = nothing := kwItems34_nonarr d v i h
+theorem applyKw_additionalItems_non (h : i.isArr = false) :
+    applyKw env impl (d.cfg none) rec .additionalItems v i s = nothing :=
+  kwAdditionalItems_nonarr d v i s h
+theorem applyKw_contains_non (h : i.isArr = false) :
+    applyKw env impl (d.cfg none) rec .contains v i s = nothing := kwContains_nonarr d v i h
+theorem applyKw_properties_non (h : i.isObj = false) :
+    applyKw env impl (d.cfg none) rec .properties v i s = nothing := kwProperties_nonobj d v i h
+theorem applyKw_properties3_non (h : i.isObj = false) :
+    applyKw env impl (d.cfg none) rec .properties_draft3 v i s = nothing :=
+  kwPropertiesDraft3_nonobj d v i s h
+theorem applyKw_patternProperties_non (h : i.isObj = false) :
+    applyKw env impl (d.cfg none) rec .patternProperties v i s = nothing :=
+  kwPatternProperties_nonobj env d v i h
+theorem applyKw_additionalProperties_non (h : i.isObj = false) :
+    applyKw env impl (d.cfg none) rec .additionalProperties v i s = nothing :=
+  kwAdditionalProperties_nonobj env d v i s h
+theorem applyKw_required_non (h : i.isObj = false) :
+    applyKw env impl (d.cfg none) rec .required v i s = nothing := kwRequired_nonobj d v i h
+theorem applyKw_dependencies_non (h : i.isObj = false) :
+    applyKw env impl (d.cfg none) rec .dependencies v i s = nothing := kwDependencies_nonobj d v i h
+theorem applyKw_dependencies3_non (h : i.isObj = false) :
+    applyKw env impl (d.cfg none) rec .dependencies_draft3 v i s = nothing :=
+  kwDependenciesDraft3_nonobj d v i h
+theorem applyKw_propertyNames_non (h : i.isObj = false) :
+    applyKw env impl (d.cfg none) rec .propertyNames v i s = nothing := kwPropertyNames_nonobj d v i h
+
+end ApplyNothing
+
+section Keys
+variable {env : Env} {impl : FmtImpl} {d : Draft} {rec : Rec} {sub : Json → Json → Bool}
+  {shp : Json → Bool} {kvs : List (Str × Json)}
+
+theorem key_minimum (C : Ctx d rec sub shp kvs) (v i : Json) (hmem : (k!"minimum", v) ∈ kvs) :
+    Ex (runKeyword env impl (d.cfg none) rec i (.obj kvs) (k!"minimum", v))
+      (clause env d sub kvs i (k!"minimum", v)) := by
+  have hsh := C.shape _ hmem
+  have hex : ∀ v', lookupJ "exclusiveMinimum" kvs = some v' →
+      shapeClause d shp (k!"exclusiveMinimum", v') = true := by
+    intro v' hv'
+    have := C.shape_lookup hv'
+    rwa [ks_exclusiveMinimum] at this
+  cases d
+  all_goals
+    obtain ⟨b, rfl⟩ : ∃ b, v = .num b := by
+      cases v with
+      | num b => exact ⟨b, rfl⟩
+      | _ => cases (hsh : false = true)
+  case d3 =>
+    cases i with
+    | num x => exact ex_runKeyword (f := .minimum_draft3_draft4) rfl (ex_kwMinimum34 .d3 kvs b x hex)
+    | _ => exact ex_runKeyword (f := .minimum_draft3_draft4) rfl ex_nothing (applyKw_minimum34_non (by rfl))
+  case d4 =>
+    cases i with
+    | num x => exact ex_runKeyword (f := .minimum_draft3_draft4) rfl (ex_kwMinimum34 .d4 kvs b x hex)
+    | _ => exact ex_runKeyword (f := .minimum_draft3_draft4) rfl ex_nothing (applyKw_minimum34_non (by rfl))
+  all_goals
+    cases i with
+    | num x =>
+      exact ex_runKeyword' (f := .minimum) rfl (ex_kwMinimum _ b x)
+    | _ =>
+      exact ex_runKeyword (f := .minimum) rfl ex_nothing (applyKw_minimum_non (by rfl))
+
+theorem key_maximum (C : Ctx d rec sub shp kvs) (v i : Json) (hmem : (k!"maximum", v) ∈ kvs) :
+    Ex (runKeyword env impl (d.cfg none) rec i (.obj kvs) (k!"maximum", v))
+      (clause env d sub kvs i (k!"maximum", v)) := by
+  have hsh := C.shape _ hmem
+  have hex : ∀ v', lookupJ "exclusiveMaximum" kvs = some v' →
+      shapeClause d shp (k!"exclusiveMaximum", v') = true := by
+    intro v' hv'
+    have := C.shape_lookup hv'
+    rwa [ks_exclusiveMaximum] at this
+  cases d
+  all_goals
+    obtain ⟨b, rfl⟩ : ∃ b, v = .num b := by
+      cases v with
+      | num b => exact ⟨b, rfl⟩
+      | _ => cases (hsh : false = true)
+  case d3 =>
+    cases i with
+    | num x => exact ex_runKeyword (f := .maximum_draft3_draft4) rfl (ex_kwMaximum34 .d3 kvs b x hex)
+    | _ => exact ex_runKeyword (f := .maximum_draft3_draft4) rfl ex_nothing (applyKw_maximum34_non (by rfl))
+  case d4 =>
+    cases i with
+    | num x => exact ex_runKeyword (f := .maximum_draft3_draft4) rfl (ex_kwMaximum34 .d4 kvs b x hex)
+    | _ => exact ex_runKeyword (f := .maximum_draft3_draft4) rfl ex_nothing (applyKw_maximum34_non (by rfl))
+  all_goals
+    cases i with
+    | num x =>
+      exact ex_runKeyword' (f := .maximum) rfl (ex_kwMaximum _ b x)
+    | _ =>
+      exact ex_runKeyword (f := .maximum) rfl ex_nothing (applyKw_maximum_non (by rfl))
+
+theorem key_exclusiveMinimum (C : Ctx d rec sub shp kvs) (v i : Json)
+    (hmem : (k!"exclusiveMinimum", v) ∈ kvs) :
+    Ex (runKeyword env impl (d.cfg none) rec i (.obj kvs) (k!"exclusiveMinimum", v))
+      (clause env d sub kvs i (k!"exclusiveMinimum", v)) := by
+  have hsh := C.shape _ hmem
+  cases d
+  case d3 => exact (ex_runKeyword_none rfl).congr (by cases i <;> rfl)
+  case d4 => exact (ex_runKeyword_none rfl).congr (by cases i <;> rfl)
+  all_goals
+    obtain ⟨b, rfl⟩ : ∃ b, v = .num b := by
+      cases v with
+      | num b => exact ⟨b, rfl⟩
+      | _ => cases (hsh : false = true)
+    cases i with
+    | num x =>
+      exact ex_runKeyword' (f := .exclusiveMinimum) rfl (ex_kwExclusiveMinimum _ b x)
+    | _ =>
+      exact ex_runKeyword (f := .exclusiveMinimum) rfl ex_nothing (applyKw_exclusiveMinimum_non (by rfl))
+
+theorem key_exclusiveMaximum (C : Ctx d rec sub shp kvs) (v i : Json)
+    (hmem : (k!"exclusiveMaximum", v) ∈ kvs) :
+    Ex (runKeyword env impl (d.cfg none) rec i (.obj kvs) (k!"exclusiveMaximum", v))
+      (clause env d sub kvs i (k!"exclusiveMaximum", v)) := by
+  have hsh := C.shape _ hmem
+  cases d
+  case d3 => exact (ex_runKeyword_none rfl).congr (by cases i <;> rfl)
+  case d4 => exact (ex_runKeyword_none rfl).congr (by cases i <;> rfl)
+  all_goals
+    obtain ⟨b, rfl⟩ : ∃ b, v = .num b := by
+      cases v with
+      | num b => exact ⟨b, rfl⟩
+      | _ => cases (hsh : false = true)
+    cases i with
+    | num x =>
+      exact ex_runKeyword' (f := .exclusiveMaximum) rfl (ex_kwExclusiveMaximum _ b x)
+    | _ =>
+      exact ex_runKeyword (f := .exclusiveMaximum) rfl ex_nothing (applyKw_exclusiveMaximum_non (by rfl))
+
+/-- the value of a `multipleOf`/`divisibleBy` member on the exact sub-domain -/
+theorem safe_divisor {v : Json}
+    (h : (match v with | .num (.int m) => decide (0 < m ∧ m ≤ 2 ^ 53) | _ => false) = true) :
+    ∃ m : Int, v = .num (.int m) ∧ 0 < m ∧ m ≤ 2 ^ 53 := by
+  cases v with
+  | num n =>
+    cases n with
+    | int m => exact ⟨m, rfl, of_decide_eq_true h⟩
+    | flt _ _ _ => cases h
+  | _ => cases h
+
+theorem key_multipleOf (C : Ctx d rec sub shp kvs) (v i : Json) (hmem : (k!"multipleOf", v) ∈ kvs) :
+    Ex (runKeyword env impl (d.cfg none) rec i (.obj kvs) (k!"multipleOf", v))
+      (clause env d sub kvs i (k!"multipleOf", v)) := by
+  have hns := C.rest.ns_member hmem
+  rw [nsMember_multipleOf] at hns
+  obtain ⟨m, rfl, h0, h1⟩ := safe_divisor hns
+  cases d
+  case d3 => exact (ex_runKeyword_none rfl).congr (by cases i <;> rfl)
+  all_goals
+    cases i with
+    | num x => exact ex_runKeyword' (f := .multipleOf) rfl (ex_kwMultipleOf _ x m h0 h1)
+    | _ => exact ex_runKeyword (f := .multipleOf) rfl ex_nothing (applyKw_multipleOf_non (by rfl))
+
+theorem key_divisibleBy (C : Ctx d rec sub shp kvs) (v i : Json) (hmem : (k!"divisibleBy", v) ∈ kvs) :
+    Ex (runKeyword env impl (d.cfg none) rec i (.obj kvs) (k!"divisibleBy", v))
+      (clause env d sub kvs i (k!"divisibleBy", v)) := by
+  have hns := C.rest.ns_member hmem
+  rw [nsMember_divisibleBy] at hns
+  obtain ⟨m, rfl, h0, h1⟩ := safe_divisor hns
+  cases d
+  case d3 =>
+    cases i with
+    | num x => exact ex_runKeyword' (f := .multipleOf) rfl (ex_kwMultipleOf _ x m h0 h1)
+    | _ => exact ex_runKeyword (f := .multipleOf) rfl ex_nothing (applyKw_multipleOf_non (by rfl))
+  all_goals exact (ex_runKeyword_none rfl).congr (by cases i <;> rfl)
+
+theorem nonNegInt_num {d : Draft} {v : Json} (h : isNonNegInt d v = true) : ∃ b, v = .num b := by
+  cases v with
+  | num b => exact ⟨b, rfl⟩
+  | _ => cases h
+
+theorem key_minLength (C : Ctx d rec sub shp kvs) (v i : Json) (hmem : (k!"minLength", v) ∈ kvs) :
+    Ex (runKeyword env impl (d.cfg none) rec i (.obj kvs) (k!"minLength", v))
+      (clause env d sub kvs i (k!"minLength", v)) := by
+  have hsh := C.shape _ hmem
+  cases d
+  all_goals
+    obtain ⟨b, rfl⟩ := nonNegInt_num hsh
+    cases i with
+    | str s =>
+      exact ex_runKeyword' (f := .minLength) rfl
+        (ex_kwLenBound _ "string" "tooShort" true strLen b (.str s) s.length (isTypeS_string _ _) rfl)
+    | _ => exact ex_runKeyword (f := .minLength) rfl ex_nothing (applyKw_minLength_non (by rfl))
+
+theorem key_maxLength (C : Ctx d rec sub shp kvs) (v i : Json) (hmem : (k!"maxLength", v) ∈ kvs) :
+    Ex (runKeyword env impl (d.cfg none) rec i (.obj kvs) (k!"maxLength", v))
+      (clause env d sub kvs i (k!"maxLength", v)) := by
+  have hsh := C.shape _ hmem
+  cases d
+  all_goals
+    obtain ⟨b, rfl⟩ := nonNegInt_num hsh
+    cases i with
+    | str s =>
+      exact ex_runKeyword' (f := .maxLength) rfl
+        (ex_kwLenBound _ "string" "tooLong" false strLen b (.str s) s.length (isTypeS_string _ _) rfl)
+    | _ => exact ex_runKeyword (f := .maxLength) rfl ex_nothing (applyKw_maxLength_non (by rfl))
+
+theorem key_minItems (C : Ctx d rec sub shp kvs) (v i : Json) (hmem : (k!"minItems", v) ∈ kvs) :
+    Ex (runKeyword env impl (d.cfg none) rec i (.obj kvs) (k!"minItems", v))
+      (clause env d sub kvs i (k!"minItems", v)) := by
+  have hsh := C.shape _ hmem
+  cases d
+  all_goals
+    obtain ⟨b, rfl⟩ := nonNegInt_num hsh
+    cases i with
+    | arr xs =>
+      exact ex_runKeyword' (f := .minItems) rfl
+        (ex_kwLenBound _ "array" "tooShort" true arrLen b (.arr xs) xs.length (isTypeS_array _ _) rfl)
+    | _ => exact ex_runKeyword (f := .minItems) rfl ex_nothing (applyKw_minItems_non (by rfl))
+
+theorem key_maxItems (C : Ctx d rec sub shp kvs) (v i : Json) (hmem : (k!"maxItems", v) ∈ kvs) :
+    Ex (runKeyword env impl (d.cfg none) rec i (.obj kvs) (k!"maxItems", v))
+      (clause env d sub kvs i (k!"maxItems", v)) := by
+  have hsh := C.shape _ hmem
+  cases d
+  all_goals
+    obtain ⟨b, rfl⟩ := nonNegInt_num hsh
+    cases i with
+    | arr xs =>
+      exact ex_runKeyword' (f := .maxItems) rfl
+        (ex_kwLenBound _ "array" "tooLong" false arrLen b (.arr xs) xs.length (isTypeS_array _ _) rfl)
+    | _ => exact ex_runKeyword (f := .maxItems) rfl ex_nothing (applyKw_maxItems_non (by rfl))
+
+theorem key_minProperties (C : Ctx d rec sub shp kvs) (v i : Json)
+    (hmem : (k!"minProperties", v) ∈ kvs) :
+    Ex (runKeyword env impl (d.cfg none) rec i (.obj kvs) (k!"minProperties", v))
+      (clause env d sub kvs i (k!"minProperties", v)) := by
+  have hsh := C.shape _ hmem
+  cases d
+  case d3 => exact (ex_runKeyword_none rfl).congr (by cases i <;> rfl)
+  all_goals
+    obtain ⟨b, rfl⟩ := nonNegInt_num hsh
+    cases i with
+    | obj ms =>
+      exact ex_runKeyword' (f := .minProperties) rfl
+        (ex_kwLenBound _ "object" "minProperties" true objLen b (.obj ms) ms.length
+          (isTypeS_object _ _) rfl)
+    | _ => exact ex_runKeyword (f := .minProperties) rfl ex_nothing (applyKw_minProperties_non (by rfl))
+
+theorem key_maxProperties (C : Ctx d rec sub shp kvs) (v i : Json)
+    (hmem : (k!"maxProperties", v) ∈ kvs) :
+    Ex (runKeyword env impl (d.cfg none) rec i (.obj kvs) (k!"maxProperties", v))
+      (clause env d sub kvs i (k!"maxProperties", v)) := by
+  have hsh := C.shape _ hmem
+  cases d
+  case d3 => exact (ex_runKeyword_none rfl).congr (by cases i <;> rfl)
+  all_goals
+    obtain ⟨b, rfl⟩ := nonNegInt_num hsh
+    cases i with
+    | obj ms =>
+      exact ex_runKeyword' (f := .maxProperties) rfl
+        (ex_kwLenBound _ "object" "maxProperties" false objLen b (.obj ms) ms.length
+          (isTypeS_object _ _) rfl)
+    | _ => exact ex_runKeyword (f := .maxProperties) rfl ex_nothing (applyKw_maxProperties_non (by rfl))
+
+theorem key_pattern (hre : RegexTotal env) (C : Ctx d rec sub shp kvs) (v i : Json)
+    (hmem : (k!"pattern", v) ∈ kvs) :
+    Ex (runKeyword env impl (d.cfg none) rec i (.obj kvs) (k!"pattern", v))
+      (clause env d sub kvs i (k!"pattern", v)) := by
+  have hsh := C.shape _ hmem
+  cases d
+  all_goals
+    obtain ⟨p, rfl⟩ : ∃ p, v = .str p := by
+      cases v with
+      | str p => exact ⟨p, rfl⟩
+      | _ => cases (hsh : false = true)
+    cases i with
+    | str s => exact ex_runKeyword' (f := .pattern) rfl (ex_kwPattern env hre _ p s)
+    | _ => exact ex_runKeyword (f := .pattern) rfl ex_nothing (applyKw_pattern_non (by rfl))
+
+theorem key_uniqueItems (C : Ctx d rec sub shp kvs) (v i : Json)
+    (hmem : (k!"uniqueItems", v) ∈ kvs) (hi : WF i = true) :
+    Ex (runKeyword env impl (d.cfg none) rec i (.obj kvs) (k!"uniqueItems", v))
+      (clause env d sub kvs i (k!"uniqueItems", v)) := by
+  have hsh := C.shape _ hmem
+  cases d
+  all_goals
+    obtain ⟨b, rfl⟩ : ∃ b, v = .bool b := by
+      cases v with
+      | bool b => exact ⟨b, rfl⟩
+      | _ => cases (hsh : false = true)
+    cases i with
+    | arr xs => exact ex_runKeyword' (f := .uniqueItems) rfl (ex_kwUniqueItems _ b xs hi)
+    | _ => exact ex_runKeyword (f := .uniqueItems) rfl ex_nothing (applyKw_uniqueItems_non (by rfl))
+
+end Keys
 
 end JS
